@@ -135,6 +135,7 @@ type vSerialSink struct {
 	stream []byte
 	cuts   []int // stream length after each sink write
 	syncs  int
+	onSync chan struct{}
 }
 
 func (s *vSerialSink) Write(p []byte) (int, error) {
@@ -153,6 +154,12 @@ func (s *vSerialSink) Sync() error {
 	vrt.Yield()
 	s.syncs++
 	s.inside--
+	if s.onSync != nil {
+		select {
+		case s.onSync <- struct{}{}:
+		default:
+		}
+	}
 	return nil
 }
 
@@ -165,7 +172,7 @@ func vBytesIn(name string, n int, lo byte) []byte {
 	return b
 }
 
-//verif: prop=C12 bounds="Size 4; one accepted write (1..3 bytes, buffered) followed by two goroutines: Write(1..6 symbolic bytes) alongside Stop, Sync or another 1-byte Write; then Sync. The write accepted before the others began comes first at the sink, every caller write arrives exactly once and contiguous, every sink write ends at a caller-write boundary, the wrapped syncer is never entered twice; every interleaving of synchronisation operations (preemption bound 2); race monitor on"
+//verif: prop=C12 bounds="Size 4; one accepted write (1..3 bytes, buffered) followed by two goroutines: Write(1..6 symbolic bytes) alongside Stop, Sync, another 1-byte Write or a flush tick (whose sync is awaited); then Sync. The write accepted before the others began comes first at the sink, every caller write arrives exactly once and contiguous, every sink write ends at a caller-write boundary, the wrapped syncer is never entered twice; every interleaving of synchronisation operations (preemption bound 2); race monitor on"
 func VC12Concurrent() {
 	sink := &vSerialSink{}
 	clock := &vTickClock{ch: make(chan time.Time, 1)}
@@ -175,7 +182,10 @@ func VC12Concurrent() {
 	n, err := b.Write(first)
 	vrt.Assert("write-accepts-all", n == len(first) && err == nil)
 	second := vBytesIn("b", vrt.IntRange("lb", 1, 6), 'i')
-	other := vrt.Choice("other", 3)
+	other := vrt.Choice("other", 4)
+	if other == 3 {
+		sink.onSync = make(chan struct{}, 8)
+	}
 	var third []byte
 	if other == 2 {
 		third = vBytesIn("c", 1, 'q')
@@ -197,6 +207,11 @@ func VC12Concurrent() {
 		case 2:
 			k, werr := b.Write(third)
 			vrt.Assert("write-accepts-all", k == 1 && werr == nil)
+		case 3:
+			// a flush tick arrives while the other goroutine may be inside Write: once it has been
+			// processed the sink has been synced (waiting for that sync here; a dropped tick is a deadlock)
+			clock.ch <- time.Unix(1, 0)
+			<-sink.onSync
 		}
 	}()
 	wg.Wait()
